@@ -10,6 +10,7 @@ import (
 	"strconv"
 	"strings"
 	"sync"
+	"sync/atomic"
 	"testing"
 	"time"
 
@@ -23,14 +24,100 @@ import (
 // sndW records like h.W and lets a test look at the stack from inside the write, i.e. while the send is in flight.
 type sndW struct {
 	h.W
-	hook func(m []byte)
+	pre  func(m []byte) // called before the bytes are recorded: the counter is drawn, the datagram not yet on the connection
+	hook func(m []byte) // called after the bytes are recorded: the datagram is on the connection, the send has not returned
 }
 
 func (w *sndW) WriteShipMessageWithPayload(m []byte) {
+	if w.pre != nil {
+		w.pre(m)
+	}
 	w.W.WriteShipMessageWithPayload(m)
 	if w.hook != nil {
 		w.hook(m)
 	}
+}
+
+// sndCounterOf reads the message counter of a written datagram (0: none).
+func sndCounterOf(m []byte) uint64 {
+	var dg model.Datagram
+	if json.Unmarshal(m, &dg) != nil || dg.Datagram.Header.MsgCounter == nil {
+		return 0
+	}
+	return uint64(*dg.Datagram.Header.MsgCounter)
+}
+
+// sndRespSerialised is set once a response processed from inside a request's write did not return before the
+// request did (a tree in which the response path waits for the request mutex): from then on the harness does not
+// wait inside the write and the step is the sequence "request; response".
+var sndRespSerialised bool
+
+// requestInFlight runs call (a Request of some kind) and, while its datagram is on the connection and the call has
+// not returned, processes a response referencing ref (0: the request's own counter) on another goroutine — what
+// the connection's reader goroutine does when the peer answers at once. It returns the reference used (0: nothing
+// was written, so nothing was answered) and whether the response was processed inside the write.
+func (sw *sndWorld) requestInFlight(ref uint64, call func()) (used uint64, inside bool) {
+	doneCh := make(chan struct{})
+	fired := false
+	sw.w.hook = func(m []byte) {
+		c := sndCounterOf(m)
+		if c == 0 {
+			return
+		}
+		used = ref
+		if ref == 0 {
+			used = c
+		}
+		fired = true
+		go func() {
+			sw.s.ProcessResponseForMsgCounterReference(util.Ptr(model.MsgCounterType(used)))
+			close(doneCh)
+		}()
+		if sndRespSerialised {
+			return
+		}
+		select {
+		case <-doneCh:
+			inside = true
+		case <-time.After(20 * time.Second):
+			sndRespSerialised = true
+		}
+	}
+	call()
+	sw.w.hook = nil
+	if fired && !inside {
+		select {
+		case <-doneCh:
+		case <-time.After(20 * time.Second):
+		}
+	}
+	return used, inside
+}
+
+// probeInsertAfterWrite runs the witness of the family flag on the tree under test: a request answered while it is
+// being written, then the identical request. As written (insertion after the write) the second one is withheld.
+func probeInsertAfterWrite() (on bool, witness []string, detail string) {
+	sw := newSndWorld()
+	dest := h.FA("rem", []uint{1}, 1)
+	cmd := []model.CmdType{sndCmd(1)}
+	var c1, c2 *model.MsgCounterType
+	sw.requestInFlight(0, func() { c1, _ = sw.s.Request(model.CmdClassifierTypeRead, sw.local, dest, false, cmd) })
+	w1 := sw.wire()
+	c2, _ = sw.s.Request(model.CmdClassifierTypeRead, sw.local, dest, false, cmd)
+	w2 := sw.wire()
+	on = len(w1) == 1 && len(w2) == 0
+	detail = fmt.Sprintf("request written as %v (returned %v), answered in flight; identical request wrote %v", w1, ctrS(c1), w2)
+	if c2 != nil {
+		detail += fmt.Sprintf(" and returned %d", *c2)
+	}
+	return on, []string{"reqf 0 1 0", "req 0 1"}, detail
+}
+
+func ctrS(c *model.MsgCounterType) string {
+	if c == nil {
+		return "nil"
+	}
+	return fmt.Sprint(*c)
 }
 
 type sndWorld struct {
@@ -95,9 +182,24 @@ type specSnd struct {
 	seen       map[uint64]bool
 	notifies   []uint64 // counters of notifications, in order
 	promoted   bool     // some lookup hit happened (LRU promotion possible)
+	overtaken  map[uint64]bool // requests answered while they were being written (before Request returned)
 }
 
-func newSpecSnd() *specSnd { return &specSnd{unanswered: map[int]uint64{}, seen: map[uint64]bool{}} }
+func newSpecSnd() *specSnd {
+	return &specSnd{unanswered: map[int]uint64{}, seen: map[uint64]bool{}, overtaken: map[uint64]bool{}}
+}
+
+// answer: a response referencing ref was processed.
+func (sp *specSnd) answer(ref uint64) bool {
+	hit := false
+	for hid, c := range sp.unanswered {
+		if c == ref {
+			delete(sp.unanswered, hid)
+			hit = true
+		}
+	}
+	return hit
+}
 
 func (sp *specSnd) onWire(r *h.Report, ops []string, cs []uint64) {
 	for _, c := range cs {
@@ -130,19 +232,29 @@ func runSenderHistory(r *h.Report, d *h.Driver, ops []string, corpus bool) {
 		var impl2, line2 string // second model op of a compound step
 		nontrivial := ""
 		switch f[0] {
-		case "req", "sub", "unsub", "bind", "unbind":
+		case "req", "reqf", "sub", "unsub", "bind", "unbind":
 			di, _ := strconv.Atoi(f[1])
 			ci, _ := strconv.Atoi(f[2])
 			dest := dests[di%len(dests)]
 			var ctr *model.MsgCounterType
 			var err error
 			var hid int
+			var flownRef uint64
+			flownInside := false
 			switch f[0] {
 			case "req":
 				cmd := []model.CmdType{sndCmd(ci)}
 				hid = sw.hashID(dest, cmd)
 				cls := []model.CmdClassifierType{model.CmdClassifierTypeRead, model.CmdClassifierTypeCall}[ci%2]
 				ctr, err = sw.s.Request(cls, sw.local, dest, ci%3 == 0, cmd)
+			case "reqf":
+				// reqf <dest> <cmd> <ref>: the peer's response referencing <ref> (0: this request's own counter) is processed
+				// by another goroutine while the request is being written, i.e. before Request has returned
+				rf, _ := strconv.Atoi(f[3])
+				cmd := []model.CmdType{sndCmd(ci)}
+				hid = sw.hashID(dest, cmd)
+				cls := []model.CmdClassifierType{model.CmdClassifierTypeRead, model.CmdClassifierTypeCall}[ci%2]
+				flownRef, flownInside = sw.requestInFlight(uint64(rf), func() { ctr, err = sw.s.Request(cls, sw.local, dest, ci%3 == 0, cmd) })
 			case "sub":
 				ft := []model.FeatureTypeType{model.FeatureTypeTypeLoadControl, model.FeatureTypeTypeMeasurement}[ci%2]
 				cmd := []model.CmdType{{NodeManagementSubscriptionRequestCall: spine.NewNodeManagementSubscriptionRequestCallType(sw.local, dest, ft)}}
@@ -163,6 +275,14 @@ func runSenderHistory(r *h.Report, d *h.Driver, ops []string, corpus bool) {
 				ctr, err = sw.s.Unbind(sw.local, dest)
 			}
 			line = fmt.Sprintf("req %d", hid)
+			if f[0] == "reqf" {
+				if flownRef == 0 || flownInside {
+					line = fmt.Sprintf("reqf %d %s", hid, f[3])
+				} else {
+					// the response path waited for the request to finish: request, then response
+					line2, impl2 = fmt.Sprintf("resp %d", flownRef), "ok"
+				}
+			}
 			wire := sw.wire()
 			done = append(done, op)
 			if err != nil || ctr == nil {
@@ -175,6 +295,8 @@ func runSenderHistory(r *h.Report, d *h.Driver, ops []string, corpus bool) {
 			if ctr != nil {
 				prev, pending := sp.unanswered[hid]
 				switch {
+				case len(wire) == 0 && !pending && sp.overtaken[uint64(*ctr)]:
+					r.SpecFail("answer-overtakes-insert", done, fmt.Sprintf("request hash %d withheld (returned %d) although request %d was answered — the response was processed while the request was being written, before it was remembered", hid, *ctr, *ctr))
 				case len(wire) == 0 && !pending:
 					r.SpecFail("withheld-without-identical-unanswered", done, fmt.Sprintf("request hash %d withheld (returned %d) although no identical request is unanswered", hid, *ctr))
 				case len(wire) == 0 && pending && uint64(*ctr) != prev:
@@ -191,6 +313,18 @@ func runSenderHistory(r *h.Report, d *h.Driver, ops []string, corpus bool) {
 					kind = "req:withheld"
 					withheld++
 				}
+				if flownRef != 0 {
+					// the response arrived after the datagram was on the connection
+					if flownInside && len(wire) == 1 && flownRef == wire[0] {
+						sp.overtaken[flownRef] = true
+					}
+					if sp.answer(flownRef) {
+						hits++
+					}
+					if flownInside {
+						kind += ":answered-in-flight"
+					}
+				}
 			}
 			// SPEC: "the memory of unanswered requests stays bounded" - any fixed bound satisfies the
 			// statement; the monitor uses 64 (the code's own bound, 21, is the model's business)
@@ -203,13 +337,7 @@ func runSenderHistory(r *h.Report, d *h.Driver, ops []string, corpus bool) {
 			sw.s.ProcessResponseForMsgCounterReference(util.Ptr(model.MsgCounterType(ref)))
 			impl = "ok"
 			done = append(done, op)
-			hit := false
-			for hid, c := range sp.unanswered {
-				if c == uint64(ref) {
-					delete(sp.unanswered, hid)
-					hit = true
-				}
-			}
+			hit := sp.answer(uint64(ref))
 			kind = "resp:miss"
 			if hit {
 				kind = "resp:hit"
@@ -290,6 +418,224 @@ func runSenderHistory(r *h.Report, d *h.Driver, ops []string, corpus bool) {
 				}
 			}
 			kind = "notify:answered-in-flight"
+		case "nest":
+			// nest <k1> <k2> [<k3>]: OVERLAPPING sends, scheduled through the connection's writer: send k1 has drawn its
+			// counter and is about to hand its bytes to the connection when send k2 runs to completion on another
+			// goroutine (and k3 inside k2 likewise). Event order of Spine.Ctr: take 1, take 2, emit 2, emit 1.
+			// kinds: o<k> other send, n notify, r<d>.<c> request (never inside a request: it would wait for the mutex)
+			kinds := f[1:]
+			seen := make([]uint64, len(kinds)) // counter in the bytes each call handed over (0: wrote nothing)
+			ret := make([]string, len(kinds))
+			lns := make([]string, len(kinds))
+			hids := make([]int, len(kinds))
+			var order []int // emission order
+			var run func(i int)
+			run = func(i int) {
+				fired := false
+				sw.w.pre = func(m []byte) {
+					sw.w.pre = nil
+					fired = true
+					seen[i] = sndCounterOf(m)
+					if i+1 < len(kinds) {
+						fin := make(chan struct{})
+						go func() { defer close(fin); run(i + 1) }()
+						select {
+						case <-fin:
+						case <-time.After(20 * time.Second):
+							ret[i+1] = "blocked"
+						}
+					}
+					order = append(order, i)
+				}
+				k := kinds[i]
+				switch k[0] {
+				case 'o':
+					n, _ := strconv.Atoi(k[1:])
+					lns[i] = "other"
+					var err error
+					switch n % 4 {
+					case 0:
+						err = sw.s.ResultSuccess(reqHdr(uint64(n)), sw.local)
+					case 1:
+						err = sw.s.ResultError(reqHdr(uint64(n)), sw.local, model.NewErrorTypeFromString("x"))
+					case 2:
+						err = sw.s.Reply(reqHdr(uint64(n)), sw.local, sndCmd(n))
+					case 3:
+						_, err = sw.s.Write(sw.local, dests[n%3], sndCmd(n))
+					}
+					if ret[i] == "" {
+						ret[i] = fmt.Sprint(seen[i])
+						if err != nil {
+							ret[i] = "error " + err.Error()
+						}
+					}
+				case 'n':
+					lns[i] = "notify"
+					c, err := sw.s.Notify(sw.local, dests[0], sndCmd(len(done)+i))
+					if ret[i] == "" {
+						ret[i] = ctrS(c)
+						if err != nil || c == nil || uint64(*c) != seen[i] {
+							ret[i] = fmt.Sprintf("error %v returned %s wrote %d", err, ctrS(c), seen[i])
+						}
+					}
+				case 'r':
+					dc := strings.Split(k[1:], ".")
+					di, _ := strconv.Atoi(dc[0])
+					ci, _ := strconv.Atoi(dc[1])
+					cmd := []model.CmdType{sndCmd(ci)}
+					dest := dests[di%len(dests)]
+					hids[i] = sw.hashID(dest, cmd)
+					lns[i] = fmt.Sprintf("req %d", hids[i])
+					c, err := sw.s.Request(model.CmdClassifierTypeRead, sw.local, dest, false, cmd)
+					if ret[i] == "" {
+						ret[i] = fmt.Sprintf("%s %d", ctrS(c), h.B2i(seen[i] != 0))
+						if err != nil || (seen[i] != 0 && (c == nil || uint64(*c) != seen[i])) {
+							ret[i] = fmt.Sprintf("error %v returned %s wrote %d", err, ctrS(c), seen[i])
+						}
+					}
+				}
+				if !fired {
+					// the call wrote nothing (a withheld request): the remaining sends run after it
+					sw.w.pre = nil
+					if i+1 < len(kinds) {
+						run(i + 1)
+					}
+				}
+			}
+			run(0)
+			wire := sw.wire()
+			done = append(done, op)
+			// SPEC: uniqueness on the connection, and the bytes reach the connection in the order the writer was entered last-in first-out
+			var want []uint64
+			for _, i := range order {
+				want = append(want, seen[i])
+			}
+			if fmt.Sprint(wire) != fmt.Sprint(want) {
+				r.SpecFail("datagram-carries-another-counter-than-drawn", done, fmt.Sprintf("overlapping sends handed over %v, the connection recorded %v", want, wire))
+			}
+			for _, c := range wire {
+				if sp.seen[c] {
+					r.SpecFail("counter-reused", done, fmt.Sprintf("counter %d written twice (overlapping sends)", c))
+				}
+				sp.seen[c] = true
+			}
+			// counters are drawn in call order: whoever entered first has the smaller counter, and the step as a whole continues the sequence
+			prevC := uint64(0)
+			if n := len(sp.wire); n > 0 {
+				prevC = sp.wire[n-1]
+			}
+			for i := range kinds {
+				if seen[i] == 0 {
+					continue
+				}
+				if seen[i] <= prevC {
+					r.SpecFail("counter-not-increasing", done, fmt.Sprintf("send %d of the overlapping group drew %d after %d", i, seen[i], prevC))
+				}
+				prevC = seen[i]
+			}
+			if prevC != 0 {
+				sp.wire = append(sp.wire, prevC)
+			}
+			for i, k := range kinds {
+				switch {
+				case k[0] == 'n' && seen[i] != 0:
+					sp.notifies = append(sp.notifies, seen[i])
+				case k[0] == 'r':
+					prev, pending := sp.unanswered[hids[i]]
+					if seen[i] == 0 && (!pending || !strings.HasPrefix(ret[i], fmt.Sprint(prev)+" ")) && !strings.HasPrefix(ret[i], "error") && ret[i] != "blocked" {
+						key := "withheld-without-identical-unanswered"
+						if c, _ := strconv.Atoi(strings.Fields(ret[i])[0]); sp.overtaken[uint64(c)] {
+							key = "answer-overtakes-insert"
+						}
+						r.SpecFail(key, done, fmt.Sprintf("request hash %d withheld (%s) inside an overlapping group; unanswered: %v %v", hids[i], ret[i], prev, pending))
+					}
+					if seen[i] != 0 {
+						sp.unanswered[hids[i]] = seen[i]
+					}
+				}
+			}
+			kind = "nest"
+			// model: the calls in the order they were entered
+			line, impl = lns[0], ret[0]
+			for i := 1; i < len(kinds); i++ {
+				if diverged {
+					break
+				}
+				r.Eval("nest:inner", "")
+				if wantA := d.Ask(line); impl != wantA {
+					r.Mismatch(done, impl, wantA, "sender op "+op+" as "+line)
+					diverged = true
+				}
+				line, impl = lns[i], ret[i]
+			}
+		case "nestreq":
+			// nestreq <d> <c>: a request is being written (counter drawn, mutex held) when ANOTHER goroutine issues the
+			// identical request. Spine.SndEv: the second reqBegin is not enabled while the first holds the mutex; once the
+			// first has finished, the second is withheld with the first's counter (nothing was answered in between).
+			di, _ := strconv.Atoi(f[1])
+			ci, _ := strconv.Atoi(f[2])
+			dest := dests[di%len(dests)]
+			cmd := []model.CmdType{sndCmd(ci)}
+			hid := sw.hashID(dest, cmd)
+			var c2 *model.MsgCounterType
+			fin := make(chan struct{})
+			early := false
+			sw.w.pre = func(m []byte) {
+				sw.w.pre = nil
+				go func() {
+					defer close(fin)
+					c2, _ = sw.s.Request(model.CmdClassifierTypeRead, sw.local, dest, false, cmd)
+				}()
+				select {
+				case <-fin:
+					early = true // entered and left Request while the first caller was inside: not one critical section
+				case <-time.After(300 * time.Millisecond):
+				}
+			}
+			c1, err := sw.s.Request(model.CmdClassifierTypeRead, sw.local, dest, false, cmd)
+			fired := sw.w.pre == nil
+			sw.w.pre = nil
+			if fired {
+				select {
+				case <-fin:
+				case <-time.After(20 * time.Second):
+				}
+			} else {
+				// the outer request was withheld (nothing written): the second one runs afterwards
+				c2, _ = sw.s.Request(model.CmdClassifierTypeRead, sw.local, dest, false, cmd)
+			}
+			wire := sw.wire()
+			done = append(done, op)
+			for _, c := range wire {
+				if sp.seen[c] {
+					r.SpecFail("counter-reused", done, fmt.Sprintf("counter %d written twice", c))
+				}
+				sp.seen[c] = true
+				sp.wire = append(sp.wire, c)
+			}
+			if len(wire) >= 1 {
+				sp.unanswered[hid] = wire[len(wire)-1]
+			}
+			if early && len(wire) == 1 && c2 != nil {
+				// a withheld twin although the first request was not yet on the connection when it was looked up cannot
+				// happen; what can is a second datagram (len(wire) == 2), reported through the model below
+				_ = c2
+			}
+			kind = "nestreq"
+			r.Eval("nest:inner", "")
+			line, impl = fmt.Sprintf("req %d", hid), fmt.Sprintf("%s %d", ctrS(c1), h.B2i(fired))
+			if err != nil {
+				impl = "error " + err.Error()
+			}
+			if wantA := d.Ask(line); impl != wantA && !diverged {
+				r.Mismatch(done, impl, wantA, "sender op "+op+" (first caller) as "+line)
+				diverged = true
+			}
+			// second caller: in the model it runs after the first has finished
+			line, impl = fmt.Sprintf("req %d", hid), fmt.Sprintf("%s %d", ctrS(c2), h.B2i(len(wire) == 2 || (!fired && len(wire) == 1)))
+			if early {
+				impl += " (entered Request while the first caller held the request mutex)"
+			}
 		case "get":
 			c, _ := strconv.Atoi(f[1])
 			line = op
@@ -360,7 +706,16 @@ func genSenderHistory(rng interface{ Intn(int) int }, n int) []string {
 	for i := 0; i < n; i++ {
 		switch x := rng.Intn(100); {
 		case x < 45:
-			ops = append(ops, fmt.Sprintf("req %d %d", rng.Intn(nd), rng.Intn(nc)))
+			if y := rng.Intn(8); y == 0 {
+				// answered while in flight: mostly by the response to this very request, sometimes to another counter
+				ref := 0
+				if rng.Intn(4) == 0 {
+					ref = 1 + rng.Intn(issued+2)
+				}
+				ops = append(ops, fmt.Sprintf("reqf %d %d %d", rng.Intn(nd), rng.Intn(nc), ref))
+			} else {
+				ops = append(ops, fmt.Sprintf("req %d %d", rng.Intn(nd), rng.Intn(nc)))
+			}
 			issued++
 		case x < 53:
 			k := []string{"sub", "unsub", "bind", "unbind"}[rng.Intn(4)]
@@ -372,9 +727,29 @@ func genSenderHistory(rng interface{ Intn(int) int }, n int) []string {
 				lo = issued - 12
 			}
 			ops = append(ops, fmt.Sprintf("resp %d", 1+lo+rng.Intn(issued-lo+2)))
-		case x < 80:
+		case x < 76:
 			ops = append(ops, fmt.Sprintf("other %d", rng.Intn(8)))
 			issued++
+		case x < 80:
+			// two or three overlapping sends; a request only outermost or inside a non-request
+			pick := func(allowReq bool) string {
+				switch y := rng.Intn(5); {
+				case y < 2:
+					return fmt.Sprintf("o%d", rng.Intn(8))
+				case y < 4 || !allowReq:
+					return "n"
+				}
+				return fmt.Sprintf("r%d.%d", rng.Intn(nd), rng.Intn(nc))
+			}
+			k1 := pick(true)
+			k2 := pick(k1[0] != 'r')
+			op := "nest " + k1 + " " + k2
+			issued += 2
+			if rng.Intn(2) == 0 {
+				op += " " + pick(k1[0] != 'r' && k2[0] != 'r')
+				issued++
+			}
+			ops = append(ops, op)
 		case x < 92:
 			if rng.Intn(3) == 0 {
 				ops = append(ops, "notifyq")
@@ -402,12 +777,37 @@ func TestSender(t *testing.T) {
 	defer r.Write()
 	d := h.StartDriver("drv_snd")
 	defer d.Close()
+	// probe phase: which member of the family is the tree under test?
+	on, wit, det := probeInsertAfterWrite()
+	r.SetFlag("insertAfterWrite", on, wit, det)
+	if !on {
+		d.Ask("cfg insertfirst 1")
+	}
+	// the member the translator reads off the source (Spine.Generated.Sender.requestRemembersBeforeWrite) must be the
+	// member the probe finds on the running code
+	if static := d.Ask("member"); (static == "after-window") != on {
+		r.Mismatch(wit, fmt.Sprintf("probed: an answered-in-flight request stays remembered = %v (%s)", on, det), "source says: "+static, "family member: static fact vs dynamic probe")
+	}
 	if ops := h.ReplayOps("sender"); ops != nil {
 		runSenderHistory(r, d, ops, true)
 		return
 	}
 	// corpus first: the LRU witness (known finding) and the eviction edge
 	runSenderHistory(r, d, lruWitness(), true)
+	// a request answered while it is being written, then the identical request (known finding answer-overtakes-insert
+	// on the member as written), then a response to ANOTHER open request inside the window, which is harmless
+	runSenderHistory(r, d, []string{"reqf 0 1 0", "req 0 1", "resp 1", "req 0 1", "req 0 2", "reqf 0 3 3", "req 0 2", "req 0 3", "reqf 0 1 0", "reqf 0 1 0"}, true)
+	// overlapping sends of every kind, scheduled through the writer: counters in call order, bytes last-in first-out
+	runSenderHistory(r, d, []string{"nest o0 o1", "nest o2 o3 n", "nest n n n", "nest r0.1 o3", "nest r0.1 n", "nest n r0.2 o1", "nest o3 r0.2 n", "req 0 1", "req 0 2", "nest r0.3 n o2", "get 3", "get 6", "resp 9", "nest r0.1 o0", "nestreq 1 5", "req 1 5", "resp 19", "nestreq 1 5", "nestreq 1 5"}, true)
+	// 30 requests each answered in flight: the stale entries stay within the bound, the oldest are evicted
+	var stale []string
+	for i := 0; i < 30; i++ {
+		stale = append(stale, fmt.Sprintf("reqf %d %d 0", i%3, 700+i))
+	}
+	for i := 0; i < 30; i++ {
+		stale = append(stale, fmt.Sprintf("req %d %d", i%3, 700+i))
+	}
+	runSenderHistory(r, d, stale, true)
 	var ev []string
 	for i := 0; i < 25; i++ {
 		ev = append(ev, fmt.Sprintf("req 0 %d", 100+i))
@@ -473,7 +873,7 @@ func TestSender(t *testing.T) {
 	}
 	// minimise the witnesses of unlisted spec failures and of the first mismatch
 	for _, sf := range append([]h.SpecFailure{}, r.SpecFailures...) {
-		if sf.Key == "lru-promotion" || len(sf.Ops) < 4 {
+		if sf.Key == "lru-promotion" || sf.Key == "answer-overtakes-insert" || len(sf.Ops) < 4 {
 			continue
 		}
 		key := sf.Key
@@ -500,18 +900,44 @@ func TestSender(t *testing.T) {
 	r.Floor("withheld requests", r.Dist["req:withheld"], r.Dist["req:withheld"]+r.Dist["req:sent"], 0.05)
 	r.Floor("responses that hit", r.Dist["resp:hit"], r.Dist["resp:hit"]+r.Dist["resp:miss"], 0.05)
 	r.Floor("lookups that hit", r.Dist["get:hit"], r.Dist["get:hit"]+r.Dist["get:miss"], 0.05)
+	if sndRespSerialised {
+		// a tree in which the response path waits for a request in progress: there is no "in flight", every such step
+		// ran as "request; response"
+		r.Info["response-path"] = "serialised with Request on this tree: a response processed from inside a request's write returned only after the request"
+	} else {
+		r.Floor("requests answered while in flight", r.Dist["req:sent:answered-in-flight"], r.Dist["req:sent"]+r.Dist["req:sent:answered-in-flight"], 0.03)
+	}
 
-	// concurrent senders: counters on the wire must be pairwise distinct (monitor only)
+	// concurrent senders on the real Sender (monitor; the all-schedules claim rests on c13_unique / c13_monotone_nonoverlap
+	// and on the deterministic overlapping groups above): every way of sending, responses and lookups from 8 goroutines.
+	//  - counters on the connection pairwise distinct;
+	//  - "counters strictly increase in issue order whenever calls do not overlap": every call is stamped with a logical
+	//    clock before it starts and after it returns; if A returned before B started, A's counter is below B's;
+	//  - concurrent identical requests: one datagram, one counter, whatever the schedule (Request is one critical section).
 	conc := h.Scale(20, 200)
+	type sndCall struct {
+		start, end int64
+		ctr        uint64
+		what       string
+	}
 	for round := 0; round < conc; round++ {
 		sw := newSndWorld()
+		var tick atomic.Int64
+		var lastBy sync.Map // goroutine -> counter it handed to the connection last
+		sw.w.pre = func(m []byte) { lastBy.Store(h.Goid(), sndCounterOf(m)) }
+		calls := make([][]sndCall, 8)
 		var wg sync.WaitGroup
 		for g := 0; g < 8; g++ {
 			wg.Add(1)
 			go func(g int) {
 				defer wg.Done()
+				me := h.Goid()
+				hdr := &model.HeaderType{AddressSource: h.FA("rem", []uint{1}, 1), AddressDestination: sw.local, MsgCounter: util.Ptr(model.MsgCounterType(g))}
 				for i := 0; i < 50; i++ {
-					switch (g + i) % 4 {
+					lastBy.Delete(me)
+					k := (g*7 + i + round) % 12
+					start := tick.Add(1)
+					switch k {
 					case 0:
 						sw.s.Request(model.CmdClassifierTypeRead, sw.local, h.FA("rem", []uint{1}, uint(g)), false, []model.CmdType{sndCmd(i)})
 					case 1:
@@ -519,19 +945,98 @@ func TestSender(t *testing.T) {
 					case 2:
 						sw.s.Write(sw.local, h.FA("rem", []uint{1}, 1), sndCmd(i))
 					case 3:
-						sw.s.ResultSuccess(&model.HeaderType{AddressSource: sw.local, AddressDestination: sw.local, MsgCounter: util.Ptr(model.MsgCounterType(i))}, sw.local)
+						sw.s.ResultSuccess(hdr, sw.local)
+					case 4:
+						sw.s.ResultError(hdr, sw.local, model.NewErrorTypeFromString("x"))
+					case 5:
+						sw.s.Reply(hdr, sw.local, sndCmd(i))
+					case 6:
+						sw.s.Subscribe(sw.local, h.FA("rem", []uint{1}, uint(i%5)), model.FeatureTypeTypeLoadControl)
+					case 7:
+						sw.s.Bind(sw.local, h.FA("rem", []uint{1}, uint(i%5)), model.FeatureTypeTypeLoadControl)
+					case 8:
+						sw.s.Unsubscribe(sw.local, h.FA("rem", []uint{1}, uint(i%5)))
+					case 9:
+						sw.s.Unbind(sw.local, h.FA("rem", []uint{1}, uint(i%5)))
+					case 10:
+						sw.s.ProcessResponseForMsgCounterReference(util.Ptr(model.MsgCounterType(1 + (g*50+i)%97)))
+					case 11:
+						sw.s.DatagramForMsgCounter(model.MsgCounterType(1 + (g*50+i)%97))
+					}
+					end := tick.Add(1)
+					if c, ok := lastBy.Load(me); ok && c.(uint64) != 0 {
+						calls[g] = append(calls[g], sndCall{start, end, c.(uint64), fmt.Sprintf("g%d/%d kind %d", g, i, k)})
 					}
 				}
 			}(g)
 		}
 		wg.Wait()
+		what := []string{fmt.Sprintf("concurrent round %d: 8 goroutines x 50 operations of 12 kinds", round)}
 		cs := sw.wire()
 		sort.Slice(cs, func(i, j int) bool { return cs[i] < cs[j] })
 		for i := 1; i < len(cs); i++ {
 			if cs[i] == cs[i-1] {
-				r.SpecFail("counter-reused", []string{fmt.Sprintf("concurrent round %d: 8 goroutines x 50 sends", round)}, fmt.Sprintf("counter %d written twice", cs[i]))
+				r.SpecFail("counter-reused", what, fmt.Sprintf("counter %d written twice", cs[i]))
+			}
+		}
+		var all []sndCall
+		for _, c := range calls {
+			all = append(all, c...)
+		}
+		if len(all) != len(cs) {
+			r.SpecFail("datagram-carries-another-counter-than-drawn", what, fmt.Sprintf("%d sends handed bytes over, %d datagrams recorded", len(all), len(cs)))
+		}
+		// sweep in start order, keeping the largest counter among the calls that have already returned
+		byStart := append([]sndCall{}, all...)
+		sort.Slice(byStart, func(i, j int) bool { return byStart[i].start < byStart[j].start })
+		byEnd := append([]sndCall{}, all...)
+		sort.Slice(byEnd, func(i, j int) bool { return byEnd[i].end < byEnd[j].end })
+		var maxDone sndCall
+		j := 0
+		for _, b := range byStart {
+			for j < len(byEnd) && byEnd[j].end < b.start {
+				if byEnd[j].ctr > maxDone.ctr {
+					maxDone = byEnd[j]
+				}
+				j++
+			}
+			if maxDone.ctr >= b.ctr {
+				r.SpecFail("counter-not-increasing", what, fmt.Sprintf("%s returned (clock %d) with counter %d before %s started (clock %d), which got counter %d", maxDone.what, maxDone.end, maxDone.ctr, b.what, b.start, b.ctr))
+				break
 			}
 		}
 		r.Eval("concurrent-round", "")
+
+		// 8 goroutines issue the same 6 requests at once, nothing is answered
+		sw = newSndWorld()
+		got := make([][]uint64, 8)
+		for g := 0; g < 8; g++ {
+			wg.Add(1)
+			go func(g int) {
+				defer wg.Done()
+				for i := 0; i < 6; i++ {
+					q := (i + g) % 6
+					c, _ := sw.s.Request(model.CmdClassifierTypeRead, sw.local, h.FA("rem", []uint{1}, uint(q)), false, []model.CmdType{sndCmd(q)})
+					if c != nil {
+						got[g] = append(got[g], uint64(q)<<32|uint64(*c))
+					}
+				}
+			}(g)
+		}
+		wg.Wait()
+		if n := len(sw.wire()); n != 6 {
+			r.SpecFail("withheld-without-identical-unanswered", what, fmt.Sprintf("8 goroutines issued the same 6 unanswered requests concurrently: %d datagrams written, not 6 (a request was withheld without its twin being on the connection, or written twice)", n))
+		}
+		ctrOf := map[uint64]uint64{}
+		for g := range got {
+			for _, qc := range got[g] {
+				q, c := qc>>32, qc&0xffffffff
+				if p, ok := ctrOf[q]; ok && p != c {
+					r.SpecFail("withheld-wrong-counter", what, fmt.Sprintf("concurrent identical requests %d returned counters %d and %d", q, p, c))
+				}
+				ctrOf[q] = c
+			}
+		}
+		r.Eval("concurrent-identical-requests", "")
 	}
 }
